@@ -250,7 +250,7 @@ def LossCase.run (c : LossCase) : Except String (Bool × Rat × List (String × 
     let (tot, t) := lossNonStatio
       (c.dyn.map fun (w, tab) => (w, fun (tx : Rat × List Rat) => tabFn tab (tx.1 :: tx.2)))
       (c.norm.map fun (w, L, samples, tab) =>
-        (w, L, (fun (t : Rat) (s : List Rat) => tabFn tab (t :: s)), samples))
+        (w, L, c.sliceSol, (fun (t : Rat) (s : List Rat) => tabFn tab (t :: s)), samples))
       bval c.obs
       (c.icPde.map fun (w, u0, uAt0) => (w, tabFn u0, tabFn uAt0))
       rows
